@@ -1,0 +1,12 @@
+//go:build verif
+// +build verif
+
+package tars
+
+// Verification hook (build tag verif only): a Protocol wired to the default application exactly as
+// AddServant... wires it, so that the real Invoke can be driven without starting a listener.
+func VerifNewProtocol(dispatcher dispatch, imp interface{}, withContext bool) *Protocol {
+	s := NewTarsProtocol(dispatcher, imp, withContext)
+	s.app = defaultApp
+	return s
+}
